@@ -4,7 +4,7 @@ A_TOOLS = "A-TOOLS: Kani 0.68 / CBMC 6.11 / CaDiCaL are correct; rustc MIR of th
 A_SC = "A-SC: atomics are sequentially consistent single-copy words; Ordering arguments and fences are invisible to the verifier"
 A_RG = "A-RG: soundness of rely/guarantee reasoning with additive ownership tokens (Jones/Owicki-Gries) and of the stutter lemma for CAS-retry loops (DESIGN 2.4-2.5); reflexivity/transitivity of the rely are checked, the meta-theorem is not"
 A_EBR = "A-EBR: a closure handed to Guard::defer_unchecked runs exactly once, after every critical section active at the call has ended (C13+C15, themselves only partly decided)"
-A_RANGE = "A-RANGE: strong/weak counts stay below 2^28 (no carry between count-word fields; `as u32` casts exact). The crate does NOT enforce this: 2^29-2 leaked clones or a bulk count >= 2^29 wrap/truncate the 29-bit fields from safe code (native demo replay/f13_count_overflow_demo.rs); outside the checked domain, recorded as an observation in known_findings.txt"
+A_RANGE = "A-RANGE: strong/weak counts stay below 2^28 (no carry between count-word fields; `as u32` casts exact). The crate does NOT enforce this on its increment paths: 2^29-2 leaked (mem::forget) clones wrap the 29-bit fields from safe code (native demo replay/f13_count_overflow_demo.rs); outside the checked domain, recorded as an observation in known_findings.txt. (The bulk constructors, which used to truncate a count >= 2^29, are repaired - F13 - and checked for EVERY count by c10_new_many_iter_any_count_partial.)"
 A_ADDR = "A-ADDR: object addresses are aligned for their type and below 2^60 (the crate's own requirement for the 4 timestamp bits)"
 A_PARAM = "A-PARAM: harness node types stand for every T: RcObject (parametricity); user pop_edges/Drop obey the trait's safety contract"
 
@@ -62,7 +62,7 @@ PROPS["RG"] = dict(   # development aid: all L1 R/G contracts at once (not a pro
 
 _C08 = ["c08_compare_exchange", "c08_compare_exchange_weak", "c08_compare_exchange_tag", "c08_load", "c08_store", "c08_swap", "c08_take_drop_from", "c08_new"]
 _L2S = ["l2_rc_ledger", "l2_rc_new_deref"]
-_C10 = ["c10_new_many_0", "c10_new_many_1", "c10_new_many_2", "c10_new_many_3", "c10_new_many_8", "c10_new_many_iter", "c10_iter_next_drop_abort",
+_C10 = ["c10_new_many_0", "c10_new_many_1", "c10_new_many_2", "c10_new_many_3", "c10_new_many_8", "c10_new_many_iter", "c10_new_many_iter_any_count_partial", "c10_iter_next_drop_abort",
         "c10_weak_many_0", "c10_weak_many_1", "c10_weak_many_3", "c10_weak_many_8"]
 _C19 = ["c19_rc", "c19_snapshot", "c19_partial_eq_not_reflexive"]
 PROPS["L2S"] = dict(
@@ -241,11 +241,11 @@ PROPS["C10"] = dict(
     kani_flags=_FAST,
     loops="new_many / weak_many array construction: N in {0,1,2,3,8} fully unwound (unwind 10, assertions on); NewRcIter::next/drop/abort are loop-free over symbolic `remain` (every prefix and count follow by induction on calls)",
     functions_under_contract=["Rc::{new_many,new_many_iter,weak_many}", "NewRcIter::{next,abort,drop}", "RcInner::alloc", "RcInner::increment_weak"],
-    expected_obligations=["C10.new_many.exactly_n_owners", "C10.new_many.zero_owners_object_released", "C10.new_many_iter.count_owners_all_unyielded", "C10.new_many_iter.zero_owners_object_released",
+    expected_obligations=["C10.new_many_iter.never_returns_fewer_owners_than_it_hands_out", "C10.new_many.exactly_n_owners", "C10.new_many.zero_owners_object_released", "C10.new_many_iter.count_owners_all_unyielded", "C10.new_many_iter.zero_owners_object_released",
                           "C10.iter_next.yields_one_share", "C10.iter_drop.releases_exactly_remainder", "C10.iter_abort.releases_exactly_remainder_once", "C10.weak_many.adds_exactly_n_weak_shares",
                           "C10.weak_many.every_result_refers_to_receiver", "C10.alloc.word"],
     trusted_base=[A_TOOLS, A_RANGE, "'destructed when and only when the last owner is gone' is C01 + C04 applied to O = N"],
-    assumptions=[A_RANGE + " (count as u32 truncation above 2^32 is an unchecked assumption, not proved harmless)", "N ranges over the enumerated set {0,1,2,3,8}; count/remain are symbolic"],
+    assumptions=[A_RANGE + " - for new_many_iter the count itself is NOT under A-RANGE any more: c10_new_many_iter_any_count_partial covers every usize (partial correctness: the constructor may refuse by panicking, never truncate)", "N of new_many/weak_many ranges over the enumerated set {0,1,2,3,8} (a const generic cannot be symbolic; N >= 2^29 would need a 4 GiB array): new_many::<N> goes through the same strong_count_of(N) as new_many_iter; weak_many::<N> with N >= 2^29 stays under A-RANGE"],
 )
 PROPS["C19"] = dict(
     title="Eq/Ord/Hash of Rc and Snapshot follow the referent", level="proof",
